@@ -24,27 +24,36 @@ func genLockTable(c *Ctx) error {
 	}
 	// systematic part: each single client lock (shared and exclusive) vs. the internal bracket, both modes
 	type sysCase struct {
-		wal  bool
-		lock string
-		excl bool
+		wal    bool
+		lock   string
+		excl   bool
+		wasWAL bool // the database was in WAL mode and was switched back to a rollback journal
 	}
 	var sys []sysCase
 	for _, wal := range []bool{false, true} {
 		for _, l := range append(append([]string{}, rollbackLocks...), walLocks...) {
-			sys = append(sys, sysCase{wal, l, false}, sysCase{wal, l, true})
+			sys = append(sys, sysCase{wal, l, false, false}, sysCase{wal, l, true, false})
 		}
 	}
-	setup := func(cs *Case, wal bool) *pager {
+	for _, l := range rollbackLocks {
+		sys = append(sys, sysCase{false, l, false, true}, sysCase{false, l, true, true})
+	}
+	setupMode := func(cs *Case, wal bool, wasWAL bool) *pager {
 		do := func(op string) string { c.Count("op." + strings.SplitN(op, " ", 2)[0]); return cs.Do(op) }
 		p := newPager(r, 512, do)
 		do("open primary")
 		do("createdb")
 		p.journalTx(p.randomShape(3), 0, 0)
-		if wal {
+		if wal || wasWAL {
 			p.wal = true
 			p.journalTx(txShape{newN: len(p.img), pages: map[int]bool{1: true}, commit: true}, 0, 0)
 			p.walTx(p.randomShape(2), false, false, false)
-			do("unlock 1 DMS")
+			if wasWAL {
+				p.toRollback() // journal_mode=DELETE again: from here on the rollback-mode lock set applies
+				p.journalTx(p.randomShape(2), 0, 0)
+			} else {
+				do("unlock 1 DMS")
+			}
 		}
 		if !wal {
 			do("wc") // an (empty) log file exists whenever an application touches the WAL lock bytes
@@ -55,7 +64,7 @@ func genLockTable(c *Ctx) error {
 	for _, sc := range sys {
 		cs := c.Begin()
 		do := func(op string) string { return cs.Do(op) }
-		setup(cs, sc.wal)
+		setupMode(cs, sc.wal, sc.wasWAL)
 		verb := "rlock"
 		if sc.excl {
 			verb = "lock"
@@ -80,17 +89,18 @@ func genLockTable(c *Ctx) error {
 		cs.End()
 		c.Count("sys." + got + "." + w)
 		if w != w2 {
-			c.Nontrivial(fmt.Sprintf("sys|%v|%s|%v", sc.wal, sc.lock, sc.excl))
+			c.Nontrivial(fmt.Sprintf("sys|%v|%s|%v|%v", sc.wal, sc.lock, sc.excl, sc.wasWAL))
 		}
 	}
 	// random part
 	for s := 0; s < nSeq; s++ {
 		wal := r.Bool()
+		wasWAL := !wal && r.Chance(1, 3)
 		cs := c.Begin()
 		do := func(op string) string { c.Count("op." + strings.SplitN(op, " ", 2)[0]); return cs.Do(op) }
-		setup(cs, wal)
+		setupMode(cs, wal, wasWAL)
 		var sig strings.Builder
-		fmt.Fprintf(&sig, "%v", wal)
+		fmt.Fprintf(&sig, "%v/%v", wal, wasWAL)
 		granted, refused, held := false, false, false
 		steps := r.Range(10, 40)
 		for i := 0; i < steps; i++ {
